@@ -24,6 +24,9 @@ import Wbxml.Props.C06
 import Wbxml.Lemmas.EncWRt
 import Wbxml.Lemmas.RtNorm
 import Wbxml.Lemmas.RtSecond
+import Wbxml.Lemmas.RtData
+import Wbxml.Lemmas.RtNs
+import Wbxml.Props.C08
 set_option maxRecDepth 100000
 namespace Wbxml.Props.C03
 open Wbxml Wbxml.Model Wbxml.Spec Wbxml.Lemmas.EncW Wbxml.Lemmas.ParseSer Wbxml.Lemmas.Rt
@@ -491,6 +494,256 @@ theorem rt2_is_rt1_partial (cfg : X2WCfg) (t : Tree) (bs : Bytes) (lang : Lang) 
       (plain_of_nf r3 hnf3) (plain_of_nf r' hnf) (by rw [hr3]; exact noBinary_rootOfDoc _ _ _ hpl)
       (by rw [hr']; exact noBinary_rootOfDoc _ _ _ hpl) hcc hx3 hx
 
+/-! ## Exact and typed round trip; elements called `Data` -/
+
+/-- What the kernel evaluates: per code page of every tag table, no name occurs twice. -/
+theorem tag_tables_names_fast : ∀ t ∈ Gen.allTagTables, namesUniqFast t = true := by decide +kernel
+
+/-- **Table fact `tagNamesUniqPerPage`**: within one code page of a language no two rows of the
+    tag table share a name — every one of the 22 tag tables of the library (so for all 29
+    languages; ActiveSync's aliases share a TOKEN, not a name). -/
+theorem tag_tables_names_uniq : ∀ t ∈ Gen.allTagTables, namesUniqPerPage t = true :=
+  fun t ht => namesUniqPerPage_of_fast t (tag_tables_names_fast t ht)
+
+/-- **The converse of the encoder's name resolution**: in every tag table, looking a row's name up
+    from the row's own code page (`wbxml_tables_get_tag_from_xml`) finds that very row (names are
+    unique per page, and the rows of a page are contiguous: C08). -/
+theorem tag_tables_self_find : ∀ t ∈ Gen.allTagTables, selfFind t = true := by
+  intro t ht
+  refine selfFind_of_fast t (tag_tables_names_fast t ht) ?_
+  intro r hr
+  have h := Props.C08.tag_tables_fast t ht
+  unfold tagTableOKFast at h
+  simp only [Bool.and_eq_true, List.all_eq_true] at h
+  exact (h.2 r.page (mem_pagesOf hr)).1
+
+/-- The one row of the library's tables that is not the first with its page and token:
+    ActiveSync `RequireStorageCardEncryption` (page 14, token 0x10). -/
+def aliasRow (r : TagRow) : Bool := r.name == b!"RequireStorageCardEncryption" && r.page == 14 && r.token == 16
+
+/-- **(page, token) pairs are unique** in every tag table but ActiveSync's, where exactly one row —
+    `RequireStorageCardEncryption`, page 14 token 0x10 — stands behind another with the same page
+    and token. -/
+theorem tag_tables_tokens_uniq_partial : ∀ t ∈ Gen.allTagTables,
+    t.all (fun r => decTag t r.page r.token == some r || aliasRow r) = true := by
+  have h : ∀ t ∈ Gen.allTagTables, tokensUniqFast aliasRow t = true := by decide +kernel
+  exact fun t ht => tokens_of_fast aliasRow t (h t ht)
+
+/-- … and the row a reader reports for both names is `DeviceEncryptionEnabled`. -/
+theorem activesync_alias_first : ∀ l ∈ Gen.main, (l.id == 2401 || l.id == 2402) = true →
+    (match l.tags with
+     | some t => (decTag t 14 16).map (·.name) == some b!"DeviceEncryptionEnabled" &&
+         (t.filter aliasRow).length == 1
+     | none => false) = true := by decide +kernel
+
+theorem main_tagNamesUniqPerPage : Gen.main.all tagNamesUniqPerPage = true := by
+  have hcov := Props.C08.lang_tables_covered
+  rw [List.all_eq_true] at hcov ⊢
+  intro l hl
+  have h := hcov l hl
+  simp only [Bool.and_eq_true] at h
+  unfold tagNamesUniqPerPage
+  cases ht : l.tags with
+  | none => rfl
+  | some t =>
+    have := h.1.1.1.1
+    rw [ht] at this
+    exact tag_tables_names_uniq t (List.contains_iff_mem.mp this)
+
+/-- **Builder reconstruction with elements called `Data`** (extends `build_reconstructs`). Over the
+    events the specification assigns to a document `d`, if the tree read off `d` satisfies
+    `dataIsNormal` — every text node stands where `wbxml_tree_node_get_syncml_data_type` answers
+    `normal` at the moment the text arrives: its parent is not called `Data`, or the `Meta`/`Type`
+    look-up among the preceding children of the `Data` element's parent and grandparent finds none
+    of the special media types and the grandparent is not `Add` / `Replace` — the tree builder of
+    `wbxml_tree_from_wbxml` succeeds and delivers exactly that tree. `noDataEvents` is the special
+    case without any `Data` element (`dataIsNormal_of_noData`). -/
+theorem build_reconstructs_data (main : List Lang) (emb : Nat → Bytes → Option Tree) (pcfg : PCfg) (d : Doc) (t : Tree)
+    (ht : treeOfEventsSpec main pcfg d = some t)
+    (hnd : ∀ r, t.root = some r → dataIsNormal r = true) :
+    treeOfEvents main emb (Spec.events pcfg d) = .ok t := by
+  unfold treeOfEventsSpec at ht
+  cases hl : headerLang pcfg d.hdr with
+  | none => rw [hl] at ht; cases ht
+  | some l =>
+    rw [hl] at ht; injection ht with ht; subst ht
+    unfold treeOfEvents
+    rw [run_doc_d main emb pcfg d l hl (dataOkDoc_of_normal pcfg d l hl (hnd _ rfl))]
+
+/-- **`rt_preserves_typed_partial`: the round trip at tree level — exact, typed, with `Data`
+    elements.** For a plain tree `r` (no CDATA section, no embedded document) of any language but
+    Wireless Village 1.1/1.2 and OTA settings (26 of 29, `C06.typed_view_languages`) under the four
+    source hypotheses of `C06.enc_is_ser_wf` (each a recorded finding), with
+    `dataIsNormal (normNodeTyped c r)`: `wbxml_tree_from_wbxml` accepts the encoder's output under
+    every reader configuration for which the header selects the language, for every fuel, and the
+    tree it delivers is — EXACTLY, representation of names included, no `canon` —
+
+        { lang := the header's language entry, origCharset := the header's,
+          root := normNodeTyped (dcfgOf cfg lang) r }
+
+    the typed exact normalisation of the source tree (`Lemmas/RtTyped.lean`): every element name
+    `.token d` with `d` the first row with the page and token of the row the encoder works with —
+    the SAME `TagRow` for every row of every table but ActiveSync's second alias
+    (`exactName_token`, `tag_tables_tokens_uniq_partial`) — or the literal C string when the table
+    has no such name; attributes `xAttr` (start row `startRow`, see `attr_start_row_spec`); text in
+    its typed normal form `vText`; empty text dropped, adjacent text merged.
+    `_partial`: plain trees; WV / OTA settings; see the note at the end of the file. -/
+theorem rt_preserves_typed_partial (cfg : X2WCfg) (t : Tree) (bs : Bytes) (lang : Lang) (r : Node)
+    (hlang : t.lang = some lang) (hroot : t.root = some r)
+    (hl : langOk lang = true) (htl : typedLangOk lang = true) (hover : treeOver lang t = true)
+    (h : treeToWbxml cfg t = .ok bs)
+    (hcdata : noCdataInTyped lang false r = true) (hdt : validDatetimeAttrs lang r = true)
+    (hb64 : b64TextDecodes (dcfgOf cfg lang) none r = true)
+    (hkv : keyValueTextFirst (dcfgOf cfg lang) none true r = true)
+    (hpn : plainNode r = true) (hnw : isWv lang.id = false) (hno : (lang.id == 1901) = false)
+    (hvs : valSemOk lang = true) (has : attrSemOk lang = true) (han : attrNameSemOk lang = true)
+    (hdata : dataIsNormal (normNodeTyped (dcfgOf cfg lang) r) = true) :
+    ∃ d : Doc, bs = Spec.ser d ∧
+      ∀ (main : List Lang) (f forced metaCs : Nat),
+        headerLang (pcfgOf main forced metaCs) d.hdr = some lang →
+        (headerCharset (pcfgOf main forced metaCs) d.hdr = 3 ∨ headerCharset (pcfgOf main forced metaCs) d.hdr = 106) →
+        cfg.version < 256 → bs.length < 4294967296 →
+        rootOfDoc (pcfgOf main forced metaCs) d lang = normNodeTyped (dcfgOf cfg lang) r ∧
+        treeOfWbxml main (f + 1) forced metaCs bs =
+          .ok { lang := main.find? (fun x => x.id == lang.id),
+                origCharset := headerCharset (pcfgOf main forced metaCs) d.hdr,
+                root := some (normNodeTyped (dcfgOf cfg lang) r) } := by
+  obtain ⟨r', d, st, hr', hres⟩ := treeToWbxml_doc cfg t bs lang hlang hl hover h
+  rw [hroot] at hr'; injection hr' with hr'; subst hr'
+  refine ⟨d, hres.ser, ?_⟩
+  intro main f forced metaCs h1 h2 h3 h4
+  have hwf := hres.wfTyped hl htl hcdata hdt hb64 hkv (pcfgOf main forced metaCs) h1 h2
+    (charsets_ok main forced metaCs _ h2) h3 h4
+  have hp := Props.C04.parse_ser (pcfgOf main forced metaCs) d hwf
+  rw [← hres.ser] at hp
+  have helt : isElt r = true := by
+    simp only [treeOver, hroot, Bool.and_eq_true] at hover
+    exact hover.1
+  have hx := hres.exactRoot hl htl helt hpn hnw hno hvs has han (pcfgOf main forced metaCs)
+  refine ⟨hx, ?_⟩
+  rw [treeOfWbxml]
+  have hpp : parse { main := main, langForced := forced, metaCharset := metaCs } bs =
+      parse (pcfgOf main forced metaCs) bs := rfl
+  simp only [hpp, hp.1, hp.2]
+  rw [run_doc_d main _ (pcfgOf main forced metaCs) d lang h1
+    (dataOkDoc_of_normal _ d lang h1 (by rw [hx]; exact hdata)), hx]
+
+/-- Every token element name of every language of the library except ActiveSync's
+    `RequireStorageCardEncryption` comes back from the round trip as the SAME table row
+    (`exactName … = .token r`); that one comes back as `DeviceEncryptionEnabled`
+    (`activesync_alias_first`). -/
+theorem exact_row_main (l : Lang) (hl : l ∈ Gen.main) (tags : List TagRow) (ht : l.tags = some tags) (r : TagRow)
+    (hr : r ∈ tags) (ha : aliasRow r = false) (nm : Bytes) : exactName l (some r) nm = .token r := by
+  have hcov := Props.C08.lang_tables_covered
+  rw [List.all_eq_true] at hcov
+  have h := hcov l hl
+  simp only [Bool.and_eq_true] at h
+  have hmem := h.1.1.1.1
+  rw [ht] at hmem
+  have hu := tag_tables_tokens_uniq_partial tags (List.contains_iff_mem.mp hmem)
+  rw [List.all_eq_true] at hu
+  have := hu r hr
+  rw [ha, Bool.or_false, beq_iff_eq] at this
+  exact exactName_token l tags ht r this nm
+
+/-- **The typed exact normalisation is idempotent** where the per-form normal forms are: on trees
+    whose names are in round-trip form, whose attributes and texts are fixed points of `xAttr` /
+    `vText` at their position (`fixedNode`: decidable) and that have no two adjacent text nodes.
+    Per form: `textFixed_normal` (`normText` of NUL-free text, every language), `textFixed_binary`
+    (raw octets under a binary-flagged tag), `C06.base64_by_value` (`b64Norm` idempotent),
+    `C06.datetime_by_value_canon` (`datetimeNorm` on canonical texts of valid date-times),
+    `nameFixed_token` / `nameFixed_exact` (what the first trip delivers for a token name). -/
+theorem norm_typed_idempotent (c : WCfg) (r : Node) (h : fixedNode c none none 0 r = true) :
+    normNodeTyped c (normNodeTyped c r) = normNodeTyped c r := normNodeTyped_idem c r h
+
+/-- **`rt2_is_rt1_ns_partial`: the second round trip for languages WITH a namespace table** (SyncML
+    1.0–1.2, DevInf, DM-DDF, ActiveSync; not DRMREL). Let `N = normNodeTyped c r` be the first
+    round-trip tree of `rt_preserves_typed_partial` and assume the source is a fixed point form
+    (`fixedNode`: what an XML reading delivers) and that every element of `N` is a resolved token
+    element without attributes (`nsReadable`: its code page has a namespace that leads back to the
+    page, its name is found from its own page — `tag_tables_self_find` —, it is not binary-flagged).
+    If `N` is printed (`wbxml_tree_to_xml`, compact or canonical, white-space policy absorbed by the
+    encoder's) and a namespace-aware Expat reads the text back (`ReadsBackNs`: element names
+    reported as `uri|local` for the default namespace `xml_encode_tag` puts in scope, `xmlns`
+    attributes not reported; the one assumption about Expat) with `syncmlDataType` answering
+    `normal` at every printed text (`dataOkX`: SyncML `<Data>200</Data>` included), then
+    `wbxml_tree_from_xml` succeeds, and whenever the encoder accepts its tree, the tree
+    `wbxml_tree_from_wbxml` builds from the second WBXML document is EXACTLY the first one: same
+    language entry, same root `N` — same table rows, same text. Converting twice gives the tree
+    that converting once gives.
+    `_partial`: token elements only, no attributes, no binary-flagged element; compact / canonical
+    output; octet identity of the two WBXML documents is not claimed (false as it stands, see
+    `rt2_bytes_differ_hollow`). -/
+theorem rt2_is_rt1_ns_partial (cfg : X2WCfg) (t : Tree) (bs : Bytes) (lang : Lang) (r : Node) (ns : List NsRow)
+    (hlang : t.lang = some lang) (hroot : t.root = some r) (hns : lang.ns = some ns)
+    (hl : langOk lang = true) (htl : typedLangOk lang = true) (hover : treeOver lang t = true)
+    (h : treeToWbxml cfg t = .ok bs)
+    (hcdata : noCdataInTyped lang false r = true) (hdt : validDatetimeAttrs lang r = true)
+    (hb64 : b64TextDecodes (dcfgOf cfg lang) none r = true)
+    (hkv : keyValueTextFirst (dcfgOf cfg lang) none true r = true)
+    (hpn : plainNode r = true) (hnw : isWv lang.id = false) (hno : (lang.id == 1901) = false)
+    (hk : (lang.id == 1801) = false)
+    (hvs : valSemOk lang = true) (has : attrSemOk lang = true) (han : attrNameSemOk lang = true)
+    (hdata : dataIsNormal (normNodeTyped (dcfgOf cfg lang) r) = true)
+    (hfix : fixedNode (dcfgOf cfg lang) none none 0 r = true)
+    (hre : nsReadable lang (normNodeTyped (dcfgOf cfg lang) r) = true) :
+    ∃ d : Doc, bs = Spec.ser d ∧
+      ∀ (main : List Lang) (f forced metaCs : Nat),
+        headerLang (pcfgOf main forced metaCs) d.hdr = some lang →
+        (headerCharset (pcfgOf main forced metaCs) d.hdr = 3 ∨ headerCharset (pcfgOf main forced metaCs) d.hdr = 106) →
+        cfg.version < 256 → bs.length < 4294967296 →
+        ∃ t' : Tree, treeOfWbxml main (f + 1) forced metaCs bs = .ok t' ∧
+          t'.root = some (normNodeTyped (dcfgOf cfg lang) r) ∧
+          ∀ (xcfg : W2XCfg) (fuel k : Nat) (xml : Bytes) (env : List (Bytes × ExpatRun)),
+            docTypeFinds main lang = true → flagsOk (xcfgOf xcfg lang) (dcfgOf cfg lang) = true →
+            dataOkX (xcfgOf xcfg lang) [] (normNodeTyped (dcfgOf cfg lang) r) = true →
+            treeToXml xcfg fuel t' = .ok xml → ReadsBackNs env xml (xcfgOf xcfg lang) t' →
+            ∃ t'' : Tree, treeOfXml main env (k + 1) xml = .ok t'' ∧
+              t''.root = some (readX (xcfgOf xcfg lang) (normNodeTyped (dcfgOf cfg lang) r)) ∧
+              ∀ bs2 : Bytes, treeToWbxml cfg t'' = .ok bs2 →
+                ∃ d2 : Doc, bs2 = Spec.ser d2 ∧
+                  ∀ (f2 forced2 meta2 : Nat),
+                    headerLang (pcfgOf main forced2 meta2) d2.hdr = some lang →
+                    (headerCharset (pcfgOf main forced2 meta2) d2.hdr = 3 ∨
+                      headerCharset (pcfgOf main forced2 meta2) d2.hdr = 106) →
+                    bs2.length < 4294967296 →
+                    treeOfWbxml main (f2 + 1) forced2 meta2 bs2 =
+                      .ok { lang := main.find? (fun x => x.id == lang.id),
+                            origCharset := headerCharset (pcfgOf main forced2 meta2) d2.hdr,
+                            root := some (normNodeTyped (dcfgOf cfg lang) r) } := by
+  obtain ⟨d, hs, hk1⟩ := rt_preserves_typed_partial cfg t bs lang r hlang hroot hl htl hover h hcdata hdt hb64 hkv
+    hpn hnw hno hvs has han hdata
+  refine ⟨d, hs, ?_⟩
+  intro main f forced metaCs a1 a2 hver hz
+  obtain ⟨hxr, ht'⟩ := hk1 main f forced metaCs a1 a2 hver hz
+  refine ⟨_, ht', rfl, ?_⟩
+  intro xcfg fuel k xml env hdtf hflags hdx hx hrb
+  have hnfN : nfNode (normNodeTyped (dcfgOf cfg lang) r) = true := by rw [← hxr]; exact nf_nodeOfElem _ _ _
+  have heltN : isElt (normNodeTyped (dcfgOf cfg lang) r) = true := by rw [← hxr]; exact isElt_nodeOfElem _ _ _
+  have hx'' := treeOfXml_readsBackNs (c := xcfgOf xcfg lang) main rfl ns hns hdtf _ _ rfl hre heltN hdx env xml
+    (treeToXml_ne_nil xcfg fuel _ xml hx) hrb k
+  refine ⟨_, hx'', rfl, ?_⟩
+  intro bs2 h2
+  have hcl : (dcfgOf cfg lang).lang = lang := dcfgOf_lang cfg lang
+  have hg := goodX_readX lang (dcfgOf cfg lang) (xcfgOf xcfg lang) hcl hk _ hre
+  have hR : normNodeTyped (dcfgOf cfg lang) (readX (xcfgOf xcfg lang) (normNodeTyped (dcfgOf cfg lang) r)) =
+      normNodeTyped (dcfgOf cfg lang) r := by
+    have h1 := (xNode_readX (dcfgOf cfg lang) (xcfgOf xcfg lang) lang hflags (by rw [hcl]; exact hk)
+      (normNodeTyped (dcfgOf cfg lang) r) none none 0 hre hnfN rfl).1
+    unfold normNodeTyped at h1 ⊢
+    rw [h1]
+    exact (xNode_fixed (dcfgOf cfg lang) r none none 0 hfix).1
+  obtain ⟨d2, hs2, hk2⟩ := rt_preserves_typed_partial cfg
+    { lang := some lang, origCharset := 0, root := some (readX (xcfgOf xcfg lang) (normNodeTyped (dcfgOf cfg lang) r)) }
+    bs2 lang _ rfl rfl hl htl
+    (by simp only [treeOver, isElt_readX _ _ heltN, hg.over, Bool.and_self]) h2 (hg.cd false) hg.dt (hg.b64 none)
+    (hg.kv none true) hg.plain hnw hno hvs has han (by rw [hR]; exact hdata)
+  refine ⟨d2, hs2, ?_⟩
+  intro f2 forced2 meta2 b1 b2 hz2
+  have := (hk2 main f2 forced2 meta2 b1 b2 hver hz2).2
+  rw [hR] at this
+  exact this
+
 /-! ## Non-vacuity -/
 
 /-- The round trip of C06's example tree under the library's table: accepted, same language,
@@ -581,6 +834,115 @@ theorem norm_not_idempotent_syncml :
   intro h
   have := congrArg ntoks h
   revert this
+  decide +kernel
+
+/-! ### Exact / typed round trip and `Data` elements: non-vacuity -/
+
+/-- `<SyncML><SyncBody><Status><CmdID>1</CmdID><Cmd>SyncHdr</Cmd><Data> 200 </Data></Status><Final/></SyncBody></SyncML>`
+    with literal names: the everyday `Data` element of a SyncML status. -/
+def exStatus : Tree where
+  lang := some Gen.lang15
+  origCharset := 106
+  root := some (.elt (.literal b!"SyncML") [] [
+    .elt (.literal b!"SyncBody") [] [
+      .elt (.literal b!"Status") [] [
+        .elt (.literal b!"CmdID") [] [.text b!"1"],
+        .elt (.literal b!"Cmd") [] [.text b!"SyncHdr"],
+        .elt (.literal b!"Data") [] [.text b!" 200 "]],
+      .elt (.literal b!"Final") [] []]])
+
+/-- All hypotheses of `rt_preserves_typed_partial` for the SyncML status (SyncML 1.2), in particular
+    `dataIsNormal` although an element is called `Data`; the conclusion evaluated: the round-trip
+    tree IS `normNodeTyped` of the source, `<Data>` holds `200`, every literal name has come back
+    as its table row; and that tree is a fixed point (`fixedNode`). -/
+example : langOk Gen.lang15 = true ∧ typedLangOk Gen.lang15 = true ∧ treeOver Gen.lang15 exStatus = true ∧
+    C06.typedHyps {} Gen.lang15 (rootOr exStatus) = true ∧ plainNode (rootOr exStatus) = true ∧
+    isWv Gen.lang15.id = false ∧ (Gen.lang15.id == 1901) = false ∧ valSemOk Gen.lang15 = true ∧
+    attrSemOk Gen.lang15 = true ∧ attrNameSemOk Gen.lang15 = true ∧ noDataNode (rootOr exStatus) = false ∧
+    dataIsNormal (normNodeTyped (dcfgOf {} Gen.lang15) (rootOr exStatus)) = true ∧
+    (match treeToWbxml {} exStatus with
+     | .ok bs => (match treeOfWbxml Gen.main (bs.length + 1) 0 0 bs with
+       | .ok t' => plainEq (rootOr t') (normNodeTyped (dcfgOf {} Gen.lang15) (rootOr exStatus)) &&
+           t'.lang == some Gen.lang15
+       | .error _ => false)
+     | .error _ => false) = true ∧
+    plainEq (normNodeTyped (dcfgOf {} Gen.lang15) (rootOr exStatus))
+      (.elt (.token ⟨b!"SyncML", 0, 0x2D, 0⟩) [] [
+        .elt (.token ⟨b!"SyncBody", 0, 0x2B, 0⟩) [] [
+          .elt (.token ⟨b!"Status", 0, 0x29, 0⟩) [] [
+            .elt (.token ⟨b!"CmdID", 0, 0x0B, 0⟩) [] [.text b!"1"],
+            .elt (.token ⟨b!"Cmd", 0, 0x0A, 0⟩) [] [.text b!"SyncHdr"],
+            .elt (.token ⟨b!"Data", 0, 0x0F, 0⟩) [] [.text b!"200"]],
+          .elt (.token ⟨b!"Final", 0, 0x12, 0⟩) [] []]]) = true ∧
+    fixedNode (dcfgOf {} Gen.lang15) none none 0 (normNodeTyped (dcfgOf {} Gen.lang15) (rootOr exStatus)) = true := by
+  decide +kernel
+
+/-- `dataIsNormal` does exclude what it has to: under `Add` the text of `Data` becomes a CDATA
+    section (`vobject`), and with a preceding `Meta`/`Type` of `text/x-vcard` as well. -/
+example : dataIsNormal (.elt (.literal b!"Add") [] [.elt (.literal b!"Item") [] [.elt (.literal b!"Data") [] [.text b!"x"]]]) = false ∧
+    dataIsNormal (.elt (.literal b!"Item") [] [
+      .elt (.literal b!"Meta") [] [.elt (.literal b!"Type") [] [.text b!"text/x-vcard"]],
+      .elt (.literal b!"Data") [] [.text b!"x"]]) = false ∧
+    dataIsNormal (.elt (.literal b!"Item") [] [
+      .elt (.literal b!"Meta") [] [.elt (.literal b!"Type") [] [.text b!"text/plain"]],
+      .elt (.literal b!"Data") [] [.text b!"x"]]) = true := by decide +kernel
+
+/-- SI 1.0 with a `%Datetime` attribute, a literal element and attribute name that the tables
+    resolve, and text to trim. -/
+def exSiRoot : Node :=
+  .elt (.token ⟨b!"si", 0, 5, 0⟩) [] [
+    .elt (.token ⟨b!"indication", 0, 6, 0⟩) [⟨.token ⟨b!"created", none, 0, 10⟩, b!"1999-06-25T15:23:15Z" ++ [0]⟩]
+      [.text b!" hello world hello "],
+    .elt (.token ⟨b!"info", 0, 7, 0⟩) [] [
+      .elt (.literal b!"item") [⟨.literal b!"class", b!"hello world hello" ++ [0]⟩] [.text b!"hello world hello"]]]
+def exSi : Tree := { lang := some Gen.lang8, origCharset := 106, root := some exSiRoot }
+
+/-- DRMREL: base64 text (with a blank) under `ds:KeyValue`. -/
+def exDrmRoot : Node :=
+  .elt (.token ⟨b!"o-ex:rights", 0, 5, 0⟩) [] [
+    .elt (.token ⟨b!"ds:KeyValue", 0, 12, 0⟩) [] [.text b!"QU JD"],
+    .elt (.token ⟨b!"o-dd:uid", 0, 8, 0⟩) [] [.text b!"cid:4567829547@foo.com"]]
+def exDrm : Tree := { lang := some Gen.lang13, origCharset := 106, root := some exDrmRoot }
+
+/-- ActiveSync: the aliased name, a binary-flagged element as token and as literal name. -/
+def exAsRoot : Node :=
+  .elt (.token ⟨b!"Sync", 0, 5, 0⟩) [] [
+    .elt (.token ⟨b!"SyncKey", 0, 11, 0⟩) [] [.text b!"repeated text here"],
+    .elt (.token ⟨b!"RequireStorageCardEncryption", 14, 16, 0⟩) [] [.text b!"1"],
+    .elt (.token ⟨b!"ConversationId", 15, 32, 1⟩) [] [.text [1, 2, 0, 255]],
+    .elt (.literal b!"ConversationId") [] [.text [3, 0, 4]]]
+def exAs : Tree := { lang := some Gen.lang27, origCharset := 106, root := some exAsRoot }
+
+/-- For one tree: the source hypotheses of `rt_preserves_typed_partial`, its conclusion evaluated
+    (the round-trip tree IS `normNodeTyped`), `dataIsNormal`, and the hypothesis and conclusion of
+    `norm_typed_idempotent` for the round-trip tree. -/
+def typedChecks (l : Lang) (t : Tree) : Bool :=
+  let r := rootOr t
+  let c := dcfgOf {} l
+  let n := normNodeTyped c r
+  C06.typedHyps {} l r && treeOver l t && plainNode r &&
+  (match treeToWbxml {} t with
+   | .ok bs => (match treeOfWbxml Gen.main (bs.length + 1) 0 0 bs with
+     | .ok t' => plainEq (rootOr t') n && t'.lang == some l
+     | .error _ => false)
+   | .error _ => false) &&
+  dataIsNormal n && fixedNode c none none 0 n && plainEq (normNodeTyped c n) n
+
+/-- SI 1.0: the literal `item` / `class` come back as their rows, `created` as the same text, the
+    text trimmed; DRMREL: `QU JD` comes back as `QUJD`; ActiveSync: `RequireStorageCardEncryption`
+    comes back as `DeviceEncryptionEnabled` (page 14 token 0x10), the literal `ConversationId` as
+    its binary-flagged row with the raw octets. -/
+example : typedChecks Gen.lang8 exSi = true ∧ typedChecks Gen.lang13 exDrm = true ∧ typedChecks Gen.lang27 exAs = true ∧
+    plainEq (normNodeTyped (dcfgOf {} Gen.lang13) exDrmRoot)
+      (.elt (.token ⟨b!"o-ex:rights", 0, 5, 0⟩) [] [
+        .elt (.token ⟨b!"ds:KeyValue", 0, 12, 0⟩) [] [.text b!"QUJD"],
+        .elt (.token ⟨b!"o-dd:uid", 0, 8, 0⟩) [] [.text b!"cid:4567829547@foo.com"]]) = true ∧
+    plainEq (normNodeTyped (dcfgOf {} Gen.lang27) exAsRoot)
+      (.elt (.token ⟨b!"Sync", 0, 5, 0⟩) [] [
+        .elt (.token ⟨b!"SyncKey", 0, 11, 0⟩) [] [.text b!"repeated text here"],
+        .elt (.token ⟨b!"DeviceEncryptionEnabled", 14, 16, 0⟩) [] [.text b!"1"],
+        .elt (.token ⟨b!"ConversationId", 15, 32, 1⟩) [] [.text [1, 2, 0, 255]],
+        .elt (.token ⟨b!"ConversationId", 15, 32, 1⟩) [] [.text [3, 0, 4]]]) = true := by
   decide +kernel
 
 /-! ### Second trip: non-vacuity and witnesses -/
